@@ -86,7 +86,7 @@ ASSUMPTIONS = ['float64 arithmetic with dyadic inputs; tolerance 1e-9 '
                'integrals, as the property states)',
                'masked fields and the bpch/gcnc copies of interpSigma are '
                'outside the generated domain']
-BUDGET = {'quick': dict(examples=6400, max_s=200),
+BUDGET = {'quick': dict(examples=9600, max_s=200),
           'thorough': dict(examples=400000, max_s=2400)}
 
 
